@@ -248,6 +248,10 @@ static void c11SetPayload(W& w)
                 header(fresh);
                 fresh.setPayload(nq);
                 std::string got = c14::observe(p, true), want = c14::observe(fresh, true);
+                // the header fields are what was written, whatever the payload is or says
+                if (p.getVersion() != 0x11 || p.getDeviceId() != 0x2233 || p.getStreamId() != 0x44 || p.getSequenceCounter() != 0x5566 || p.getTimestamp() != 0x778899AABBCCDDEEull ||
+                    p.getInterfaceId() != 0x0F1E2D3C || p.getVendorId() != 0x4B5A || p.getCommonFlags() != 0x23)
+                    w.fail("side-effect:Packet::setPayload", "setPayload('" + pool[q].first + "') changed a header field of the packet: {" + got + "}");
                 if (got != want)
                     w.fail("set-get-mismatch:Packet::Payload", "setPayload('" + pool[q].first + "') on a packet that held " + (prior < 0 ? std::string("nothing") : "'" + pool[(size_t) prior].first + "'") +
                                                                    ": {" + got + "} a fresh packet reads {" + want + "}");
@@ -360,6 +364,47 @@ static void c12Packet(W& w)
                 w.add(mc::C_TRACES, 1);
                 w.add(mc::C_TRANS, 2);
                 w.outcome(mc::mix(mc::fnv(buf, 8), mc::fnv(mb, 16)));
+            }
+}
+
+// ... and with the typed payloads of the value pool (incl. payloads that report bus errors), the header written before or after
+// the payload was given: the serialised message header carries the flags byte that was written, the payload's type byte and
+// length, and nothing the payload says
+static void c12PacketTyped(W& w)
+{
+    auto pool = c14::asamPayloads();
+    const uint8_t fls[] = {0x00, 0x23, 0x40, 0xBF};
+    for (size_t q = 0; q < pool.size(); ++q)
+        for (uint8_t fl : fls)
+            for (int order = 0; order < 2; ++order)
+            {
+                auto desc = [&] { return ofmt("k=c12pktt;q=%zu;fl=%x;order=%d", q, fl, order); };
+                if (!w.begin_case(desc))
+                    continue;
+                A::Payload pl = pool[q].second();
+                A::Packet p;
+                auto header = [&](A::Packet& x) { x.setTimestamp(0x0102030405060708ull); x.setInterfaceId(0x0A0B0C0D); x.setVendorId(0x0E0F); x.setCommonFlags(fl); };
+                if (order == 0)
+                    header(p);
+                p.setPayload(pl);
+                if (order == 1)
+                    header(p);
+                uint8_t mb[16];
+                memset(mb, 0xEE, sizeof mb);
+                p.getRawMessageHeader(mb);
+                const uint8_t mt = (uint8_t) pl.getMessageType();
+                ref::MsgHdr mh;
+                mh.ts = 0x0102030405060708ull;
+                mh.idword = mt == 1 ? 0x0A0B0C0Du : ((mt == 3 || mt == 0xFF) ? 0x0E0Fu : 0);
+                mh.flags = fl; mh.ptype = pl.getRawPayloadType(); mh.plen = (uint16_t) pl.getLength();
+                Bytes me;
+                ref::putMsgHdr(me, mh);
+                if (memcmp(mb, me.data(), 16) != 0)
+                    w.fail("layout:Packet::getRawMessageHeader", "payload '" + pool[q].first + ofmt("', flags 0x%02x written %s the payload: serialised ", fl, order ? "after" : "before") + mc::hex(mb, 16) +
+                                                                     ", the layout prescribes " + mc::hex(me));
+                w.add(mc::C_TRACES, 1);
+                w.add(mc::C_TRANS, 1);
+                w.outcome(mc::mix(mc::fnv(mb, 16), q));
             }
 }
 
@@ -543,6 +588,11 @@ int main(int argc, char** argv)
                         c11Masks(w, i);
                 return;
             }
+            if (kv["k"] == "c12pktt")
+            {
+                c12PacketTyped(w);
+                return;
+            }
             if (kv["k"] == "c12pkt" || kv["k"] == "c12cls" || kv["k"] == "c11seq")
             {
                 // class-level cases are cheap: re-run the whole class-level check
@@ -582,12 +632,14 @@ int main(int argc, char** argv)
         if (prop == "C11")
             run.round("flag setters with every mask value (incl. multi-bit masks such as CommonFlags::seg) from every prior flag state", 5, [&](W& w, uint64_t o) { c11Masks(w, (int) o); });
         if (prop == "C11")
-            run.round("Packet::setPayload from every prior state: nothing or any payload of a 19-member pool held before x 19 new payloads x header written before / after", 1,
+            run.round("Packet::setPayload from every prior state: nothing or any payload of a 23-member pool (incl. payloads that report bus errors) held before x 23 new payloads x header written before / after", 1,
                       [&](W& w, uint64_t) { c11SetPayload(w); });
         if (prop == "C12")
         {
             run.round("class level: default images, reserved bits, header sizes", classes.size(), [&](W& w, uint64_t o) { classes[o].runClass(w); });
             run.round("Packet serialisers against hand-laid-out images", 1, [&](W& w, uint64_t) { c12Packet(w); });
+            run.round("Packet message-header serialiser with the typed payloads of the value pool (incl. payloads that report bus errors), header written before / after the payload", 1,
+                      [&](W& w, uint64_t) { c12PacketTyped(w); });
             run.round("derived TECMP accessors (voltage, version strings) and TECMP::LinPayload::setData", 1, [&](W& w, uint64_t) { c12TecmpDerived(w); });
             run.round("named constants (flag bits, message / payload / data types) against the protocol tables", 1, [&](W& w, uint64_t) { c12Constants(w); });
             run.round("variable-length sections of the capture-module / interface status payloads: hand-laid-out images read through the getters", 1, [&](W& w, uint64_t) { c12Sections(w); });
